@@ -113,7 +113,11 @@ func NewMergedResultSet(results []ResultSet) ResultSet {
 	}
 
 	mrs := &mergedResultSet{first: true}
-	mrs.heap.init(results)
+	if err := mrs.heap.init(results); err != nil {
+		// An input that fails before its first series is not an empty input.
+		mrs.err = err
+		mrs.Close()
+	}
 	return mrs
 }
 
@@ -172,21 +176,26 @@ type resultSetHeap struct {
 	items []ResultSet
 }
 
-func (h *resultSetHeap) init(results []ResultSet) {
+func (h *resultSetHeap) init(results []ResultSet) error {
 	if cap(h.items) < len(results) {
 		h.items = make([]ResultSet, 0, len(results))
 	} else {
 		h.items = h.items[:0]
 	}
 
+	var err error
 	for _, rs := range results {
 		if rs.Next() {
 			h.items = append(h.items, rs)
 		} else {
+			if e := rs.Err(); e != nil && err == nil {
+				err = e
+			}
 			rs.Close()
 		}
 	}
 	heap.Init(h)
+	return err
 }
 
 func (h *resultSetHeap) Less(i, j int) bool {
